@@ -4,7 +4,6 @@ from __future__ import annotations
 import fnmatch
 import importlib
 import json
-import multiprocessing as mp
 import os
 import random
 import signal
@@ -23,18 +22,13 @@ def load_harness(pid: str):
     return importlib.import_module(f'harness.{pid}')
 
 
-def _child(conn, pid: str, tier: str, ob_name: str, mode: str, payload: Any):
-    """Forked worker: one engine run or one replay."""
+def _run_one(pid: str, tier: str, ob_name: str, mode: str, payload: dict, cache: dict) -> dict:
     try:
-        signal.signal(signal.SIGINT, signal.SIG_IGN)
-        try:
-            os.setpgrp()
-        except Exception:
-            pass
-        sys.setrecursionlimit(20000)
-        h = load_harness(pid)
-        obs = {o.name: o for o in h.obligations(tier)}
-        ob = obs[ob_name]
+        key = (pid, tier)
+        if key not in cache:
+            h = load_harness(pid)
+            cache[key] = {o.name: o for o in h.obligations(tier)}
+        ob = cache[key][ob_name]
         if mode == 'engine':
             if ob.engine == 'xh':
                 from vf import xh
@@ -50,23 +44,30 @@ def _child(conn, pid: str, tier: str, ob_name: str, mode: str, payload: Any):
                 res = smt.run(ob, payload['excluded'], payload['timeout'])
             else:
                 raise ValueError(ob.engine)
-        else:
-            t0 = time.time()
-            out = ob.concrete(ob.P, unjson(payload['witness']))
-            res = {'replay': jsonable(out), 'ok': bool(out.get('ok')), 'wall_s': round(time.time() - t0, 3)}
-        conn.send(jsonable(res) if mode != 'engine' else _clean(res))
+            return _clean(res)
+        t0 = time.time()
+        out = ob.concrete(ob.P, unjson(payload['witness']))
+        return jsonable({'replay': jsonable(out), 'ok': bool(out.get('ok')), 'wall_s': round(time.time() - t0, 3)})
     except BaseException as e:  # noqa
-        try:
-            conn.send({'verdict': 'error', 'message': f'worker crashed: {type(e).__name__}: {e}',
-                       'tb': traceback.format_exc()[-3000:], 'ok': None})
-        except Exception:
-            pass
-    finally:
-        try:
-            conn.close()
-        except Exception:
-            pass
-        os._exit(0)
+        return {'verdict': 'error', 'message': f'worker crashed: {type(e).__name__}: {e}',
+                'tb': traceback.format_exc()[-3000:], 'ok': None}
+
+
+def worker_main() -> int:
+    """Persistent worker: one JSON job per line on stdin, one JSON result per line on the saved stdout."""
+    out = os.fdopen(os.dup(1), 'w')
+    os.dup2(2, 1)  # anything the code under test prints goes to stderr
+    sys.setrecursionlimit(20000)
+    cache: dict = {}
+    for line in sys.stdin:
+        line = line.strip()
+        if not line:
+            continue
+        job = json.loads(line)
+        res = _run_one(job['pid'], job['tier'], job['ob'], job['mode'], job['payload'], cache)
+        out.write(json.dumps(res) + '\n')
+        out.flush()
+    os._exit(0)
 
 
 def _clean(res: Dict[str, Any]) -> Dict[str, Any]:
@@ -82,31 +83,64 @@ class Job:
         self.mode = mode
         self.payload = payload
         self.budget = budget
-        self.proc: Optional[mp.Process] = None
-        self.conn = None
         self.t0 = 0.0
 
 
-def _start(ctx, pid, tier, job: Job):
-    parent, child = ctx.Pipe(duplex=False)
-    p = ctx.Process(target=_child, args=(child, pid, tier, job.ob.name, job.mode, job.payload), daemon=True)
-    p.start()
-    child.close()
-    job.proc, job.conn, job.t0 = p, parent, time.time()
+class Worker:
+    def __init__(self):
+        import subprocess
+
+        self.proc = subprocess.Popen([sys.executable, '-m', 'vf.runner'], stdin=subprocess.PIPE, stdout=subprocess.PIPE,
+                                     stderr=subprocess.DEVNULL, cwd=ROOT, start_new_session=True, text=True, bufsize=1)
+        os.set_blocking(self.proc.stdout.fileno(), False)
+        self.job: Optional[Job] = None
+        self.buf = ''
+
+    def submit(self, pid, tier, job: Job):
+        self.job = job
+        job.t0 = time.time()
+        self.proc.stdin.write(json.dumps({'pid': pid, 'tier': tier, 'ob': job.ob.name, 'mode': job.mode,
+                                          'payload': job.payload}) + '\n')
+        self.proc.stdin.flush()
+
+    def poll(self):
+        """Returns a result dict when the current job is finished, else None."""
+        try:
+            chunk = self.proc.stdout.read()
+        except Exception:
+            chunk = None
+        if chunk:
+            self.buf += chunk
+        if '\n' in self.buf:
+            line, self.buf = self.buf.split('\n', 1)
+            try:
+                return json.loads(line)
+            except Exception:
+                return {'verdict': 'error', 'message': 'unparsable worker output', 'ok': None}
+        if self.proc.poll() is not None:
+            return {'verdict': 'error', 'message': f'worker exited (code {self.proc.returncode}) without result', 'ok': None}
+        return None
+
+    def kill(self):
+        try:
+            os.killpg(self.proc.pid, signal.SIGKILL)
+        except Exception:
+            pass
+        try:
+            self.proc.kill()
+            self.proc.wait(timeout=5)
+        except Exception:
+            pass
+
+    def close(self):
+        try:
+            self.proc.stdin.close()
+        except Exception:
+            pass
+        self.kill()
 
 
-def _kill(job: Job):
-    try:
-        os.killpg(job.proc.pid, signal.SIGKILL)
-    except Exception:
-        pass
-    try:
-        job.proc.kill()
-    except Exception:
-        pass
-
-
-def run_property(pid: str, tier: str, only: Optional[str] = None, jobs: int = 16, seed: int = 0,
+def run_property(pid: str, tier: str, only: Optional[str] = None, jobs: int = 10, seed: int = 0,
                  verbose: bool = False) -> int:
     t_start = time.time()
     h = load_harness(pid)
@@ -123,7 +157,6 @@ def run_property(pid: str, tier: str, only: Optional[str] = None, jobs: int = 16
     findings = load_known_findings()
     scale = float(os.environ.get('VERIF_TIMEOUT_SCALE', '1'))
 
-    ctx = mp.get_context('fork')
     state: Dict[str, Dict[str, Any]] = {}
     for ob in all_obs:
         state[ob.name] = {
@@ -188,53 +221,48 @@ def run_property(pid: str, tier: str, only: Optional[str] = None, jobs: int = 16
         st['violation'] = {'witness': job.payload['witness'], 'replay': rep.get('replay'),
                            'engine_message': eng.get('message'), 'tb': eng.get('tb')}
 
-    while pending or running:
-        while pending and len(running) < jobs:
-            job = pending.pop(0)
-            _start(ctx, pid, tier, job)
-            running.append(job)
-        time.sleep(0.02)
-        for job in list(running):
-            done = False
-            res = None
-            if job.conn.poll():
-                try:
-                    res = job.conn.recv()
-                except EOFError:
-                    res = {'verdict': 'error', 'message': 'worker died without result', 'ok': None}
-                done = True
-            elif not job.proc.is_alive():
-                # may have died right after sending
-                if job.conn.poll():
-                    try:
-                        res = job.conn.recv()
-                    except EOFError:
-                        res = {'verdict': 'error', 'message': 'worker died without result', 'ok': None}
+    workers: List[Worker] = []
+    idle: List[Worker] = []
+    try:
+        while pending or any(w.job for w in workers):
+            while pending and (idle or len(workers) < jobs):
+                if idle:
+                    w = idle.pop()
                 else:
-                    res = {'verdict': 'error', 'message': f'worker exited (code {job.proc.exitcode}) without result', 'ok': None}
-                done = True
-            elif time.time() - job.t0 > job.budget:
-                _kill(job)
-                res = {'verdict': 'inconclusive', 'message': f'killed after {job.budget:.0f}s wall budget', 'ok': None,
-                       'paths': 0, 'queries': 0, 'wall_s': round(time.time() - job.t0, 1)}
-                done = True
-            if done:
-                running.remove(job)
-                try:
-                    job.proc.join(timeout=1)
-                except Exception:
-                    pass
-                _kill(job)
-                job.conn.close()
+                    w = Worker()
+                    workers.append(w)
+                w.submit(pid, tier, pending.pop(0))
+            time.sleep(0.01)
+            for w in list(workers):
+                job = w.job
+                if job is None:
+                    continue
+                res = w.poll()
+                if res is None and time.time() - job.t0 > job.budget:
+                    w.kill()
+                    res = {'verdict': 'inconclusive', 'message': f'killed after {job.budget:.0f}s wall budget', 'ok': None,
+                           'paths': 0, 'queries': 0, 'wall_s': round(time.time() - job.t0, 1)}
+                if res is None:
+                    continue
+                w.job = None
+                if w.proc.poll() is None:
+                    idle.append(w)
+                else:
+                    workers.remove(w)
                 if verbose:
                     print(f'  [{job.mode}] {job.ob.name}: {res.get("verdict", res.get("ok"))} '
-                          f'{res.get("message", "")[:200]} paths={res.get("paths")} wall={res.get("wall_s")}', flush=True)
+                          f'{str(res.get("message", ""))[:200]} paths={res.get("paths")} wall={res.get("wall_s")}', flush=True)
+                    if res.get('tb') and res.get('verdict') == 'error':
+                        print(res['tb'], flush=True)
                 if job.mode == 'engine':
                     finish_engine(job, res)
                 else:
                     if res.get('verdict') == 'inconclusive':
                         res = {'ok': None, 'message': 'replay timed out'}
                     finish_replay(job, res)
+    finally:
+        for w in workers:
+            w.close()
 
     return _report(pid, tier, seed, h, all_obs, state, harness_errors, time.time() - t_start, only)
 
@@ -357,3 +385,7 @@ def replay_file(path: str) -> int:
         return 0
     print(f'VIOLATION property={pid} replay={path}')
     return 1
+
+
+if __name__ == '__main__':
+    worker_main()
